@@ -37,6 +37,54 @@ CHECKS = {
                      "one. Exploration level."),
 }
 
+SC_NOTE = None
+_sc = dict(engine="sc", technique="deterministic simulation: seeded task-tree programs on a seeded virtual-time asyncio "
+           "loop with injected cancellations / deadlines / shield toggles / failures, judged by an independent "
+           "reference model of cancel-scope semantics over the recorded history")
+CHECKS.update({
+    "C01": dict(_sc, ref="4 (Engine SC, C01)",
+                text="Seeded search over task trees (nested groups, children spawning children - also into foreign, "
+                     "cancelled or exiting groups -, start() children, shielded/raising cleanups) under seeded "
+                     "schedules and cancel injections. At every group exit: every member task is done, every visible "
+                     "TaskHandle is final and its status/return_value/exception equal the interpreter's own record of "
+                     "how that coroutine ended; over the history no member executes a step after its group's exit "
+                     "record. Exploration level."),
+    "C02": dict(_sc, ref="4 (Engine SC, C02)",
+                text="Same engine biased to failing children/bodies/cleanups. Per group: identity set of "
+                     "non-cancellation leaves raised by the block == exceptions that escaped the body and the members "
+                     "(start() hand-overs attributed to the caller), no duplicates, no cancellation leaves, nothing "
+                     "raised if nothing failed unless an enclosing scope is cancelled, group scope cancelled on first "
+                     "failure; global conservation: every program exception that escaped a task reaches the root "
+                     "exactly once. Exploration level."),
+    "C03": dict(_sc, ref="4 (Engine SC, C03)",
+                text="Same engine biased to cancels at every relative time (self, sibling, outside callback, deadline, "
+                     "pre-cancel, under/after shields, spawn into cancelled groups). For every blocking operation the "
+                     "model computes the loop cycles during which the task is blocked while its scope chain is "
+                     "effectively cancelled: must be <= 4 (calibrated max 2); operations entered in an effectively "
+                     "cancelled chain must raise; deadlock / iteration-cap exhaustion is a violation (programs are "
+                     "terminating by construction). Exploration level."),
+    "C04": dict(_sc, ref="4 (Engine SC, C04)",
+                text="Same engine biased to scope trees with shields, toggles and deadline moves. Rules: an operation "
+                     "is interrupted only if its chain was effectively cancelled at some instant of the operation; at "
+                     "every scope exit reached by a cancellation: absorbed iff own scope cancelled and no cancelled "
+                     "enclosing scope visible; cancelled_caught iff absorbed; other exceptions (and non-cancellation "
+                     "leaves of groups) pass through by identity. Exploration level."),
+    "C05": dict(_sc, ref="4 (Engine SC, C05)",
+                text="Same engine biased to many deliveries before exit and native asyncio.timeout blocks around/inside "
+                     "anyio scopes. Rules: Task.cancelling() (net of pending native timeouts) restored at every scope "
+                     "exit whose enclosing chain was never effectively cancelled during the block; asyncio.timeout "
+                     "raises TimeoutError iff it expired; after the program no cancel-scope timer is armed and no "
+                     "delivery callback keeps rescheduling (iteration cap). Exploration level."),
+    "C07": dict(_sc, ref="4 (Engine SC, C07)",
+                text="Same engine biased to start(): children with started() anywhere/nowhere/twice, raising before or "
+                     "after, callers in the group, in siblings, in foreign groups, under shields, cancelled at every "
+                     "relative time. Rules: returned value == first accepted started() value; if start() raises, the "
+                     "child task is done, the exception is the child's own (identity) or RuntimeError only if it "
+                     "merely returned; errors raised while the caller is being cancelled surface (conservation); a "
+                     "child ending before started() does not cancel the group; second started() refused unless the "
+                     "caller was cancelled. Exploration level."),
+})
+
 NOT_YET = "check not built yet in this snapshot of /verif (work in progress; see DESIGN.md section 4 for the plan)"
 
 
@@ -61,7 +109,7 @@ def main():
     engines = {}
     for pid, c in CHECKS.items():
         engines.setdefault(c["engine"], []).append(pid)
-    paths = {"sync-permits": "engines/permits.py"}
+    paths = {"sync-permits": "engines/permits.py", "sc": "engines/sc.py"}
     try:
         hooks = [l.split()[0] for l in subprocess.run(
             ["git", "-C", "/repo", "log", "--format=%h %s", "--grep=^hook:"], capture_output=True, text=True
